@@ -114,22 +114,50 @@ def discharge(ob, allow_cvc5=True):
             res.update(status='discharged', backend='z3', detail='')
             return _fin(res, t0)
         if r == z3.sat:
-            res.update(status='refuted', backend='z3', detail='sat', model=model_env(s.model()))
-            return _fin(res, t0)
+            m = model_env(s.model())
+            ok = genuine_model(ob, m)
+            if ok:
+                res.update(status='refuted', backend='z3', detail='sat', model=ok)
+                return _fin(res, t0)
+            res['detail'] = (res['detail'] + '; z3 model is not a real counterexample (symbols of the '
+                             'trig/sqrt theory are under-axiomatised): ignored').strip('; ')
         if allow_cvc5:
             r5 = _cvc5(s, SMT_TIMEOUT_MS)
             if r5 == 'unsat':
                 res.update(status='discharged', backend='cvc5', detail='z3 unknown')
                 return _fin(res, t0)
-            if r5 == 'sat':
-                res.update(status='refuted', backend='cvc5', detail='sat (no model extracted)')
-                return _fin(res, t0)
+
         res['backend'] = (res['backend'] + '+z3+cvc5').strip('+')
         res['detail'] = (res['detail'] + '; smt: unknown').strip('; ')
     except Exception as e:          # a crash of the checker is never a verdict
         import traceback
         res.update(status='error', detail='%r\n%s' % (e, traceback.format_exc()))
     return _fin(res, t0)
+
+
+def genuine_model(ob, m):
+    """re-evaluate a solver model with the TRUE values of the dependent symbols (atoms, sqrt,
+    arccos ... computed from the model's input values); return the completed env if the path
+    condition holds and the goal is false there, else None"""
+    c = ob.ctx
+    env0 = {k: v for k, v in m.items() if k not in c.numdefs}
+    try:
+        env = T.complete_env(c, env0)
+        for nm in c.order:
+            if nm not in env:
+                return None
+        if not all(T.numeval(f, env) for f in ob.pc):
+            return None
+        if not all(T.numeval(f, env) for f in ob.facts):
+            return None
+        if ob.eq is not None:
+            l, r = T.numeval(ob.eq[0].z, env), T.numeval(ob.eq[1].z, env)
+            bad = abs(l - r) > 1e-9 * (1 + abs(l) + abs(r))
+        else:
+            bad = not T.numeval(ob.goal, env)
+        return {k: v for k, v in env.items() if isinstance(k, str)} if bad else None
+    except Exception:
+        return None
 
 
 def _fin(res, t0):
